@@ -677,6 +677,10 @@ func createConnHandler(
 							break
 						}
 					}
+					if inErr == io.EOF {
+						// The client has ended its stream, let the backend know.
+						inErr = clientStream.CloseSend()
+					}
 					wg.Done()
 				}()
 			}
